@@ -9,6 +9,7 @@ PROP = {
              + vpdriver.libc_units(["inttypes/strtoumax.c"], ["-include", "{REPO}/igris/util/errno.h"]),
     "targets": [
         {"name": "strto", "quick": 3000000, "thorough": 40000000, "maxlen": 96},
+        {"name": "strto_seq", "quick": 1500000, "thorough": 15000000, "maxlen": 200},
         {"name": "qsort", "quick": 400000, "thorough": 6000000, "maxlen": 200},
         {"name": "bsearch", "quick": 1000000, "thorough": 15000000, "maxlen": 160},
         {"name": "qsort_large", "quick": 8000, "thorough": 150000, "maxlen": 40},
